@@ -92,7 +92,7 @@ func sortedKeys(m map[int]int) []int {
 }
 
 func sortedSetSystem() *hist.System {
-	elems, weights := []int{1, 2, 3}, []int{1, 2, 3}
+	elems, weights := []int{1, 2, 3}, []int{-1, 0, 2} // non-positive weights included: the zero value is not special
 	var names []string
 	for _, e := range elems {
 		names = append(names, fmt.Sprintf("Add(%d)", e))
@@ -109,7 +109,7 @@ func sortedSetSystem() *hist.System {
 		w := map[int]reactive.Variable[int]{}
 		for _, e := range elems {
 			w[e] = reactive.NewVariable[int]()
-			w[e].Set(e) // distinct initial weights
+			w[e].Set(e - 2) // distinct initial weights -1, 0, 1
 		}
 		s := reactive.NewSortedSet(func(e int) reactive.Variable[int] { return w[e] })
 		member := map[int]bool{}
